@@ -418,3 +418,8 @@ func (w *gmWorld) governance() {
 		pk.SetParams(ctx, p)
 	}
 }
+
+
+// qctx is the context a query runs in on a real node: the same state, but not the execution mode of block
+// processing (process-local caches that only block execution may use are bypassed by queries).
+func qctx(ctx sdk.Context) sdk.Context { return ctx.WithExecMode(sdk.ExecModeCheck) }
